@@ -909,7 +909,18 @@ func (env *Zlisp) FindObject(name string) (Sexp, bool) {
 func (env *Zlisp) Apply(fun *SexpFunction, args []Sexp) (Sexp, error) {
 	//VPrintf("\n\n debug Apply not working on user funcs: fun = '%#v'   and args = '%#v'\n\n", fun, args)
 	if fun.user {
-		return fun.userfun(env, fun.name, args)
+		// a Go function applied directly (a builtin macro during code
+		// generation; map, apply) gets the panic protection that
+		// CallUserFunction gives every other builtin call.
+		return func() (res Sexp, err error) {
+			defer func() {
+				if r := recover(); r != nil {
+					res = SexpNull
+					err = fmt.Errorf("Apply caught panic during call of '%s': '%v'", fun.name, r)
+				}
+			}()
+			return fun.userfun(env, fun.name, args)
+		}()
 	}
 
 	callState := env.captureControlState()
